@@ -24,13 +24,14 @@ LogOk(ev) == LET g == LogStep(ev) IN SizesMatch(g, ev) /\ Coherent(g)
 ParseKb(ev) == ev.c.op = "parse" /\ "KeepBlanksLeak" \in KnownDeviations
 KeyOf(ev) == IF ParseKb(ev) THEN ev.key \o "|kb=" \o ToString(ev.kbBefore) ELSE ev.key
 OtherKbKey(ev) == ev.key \o "|kb=" \o ToString(1 - ev.kbBefore)
-Pure(ev) == KeyOf(ev) \in DOMAIN results => results[KeyOf(ev)] = ev.res
+Pure(ev) == KeyOf(ev) \in DOMAIN results => results[KeyOf(ev)].res = ev.res
 InputUnchanged(ev) == ev.inBefore = ev.inAfter
 Explained(ev) == (ev.fail /\ "log" \in DOMAIN ev) => ev.log.n > 0
 SvcOk(ev) == IF Mode = "C15" THEN ("log" \in DOMAIN ev => LogCoherent(ev.log)) /\ Explained(ev)
              ELSE Pure(ev) /\ InputUnchanged(ev)
 Why(ev) == IF Mode = "C15" THEN (IF Explained(ev) THEN "issue list not coherent: " ELSE "failing result without an issue: ") \o ev.key
-           ELSE (IF InputUnchanged(ev) THEN "result depends on history: " ELSE "input model modified: ") \o ev.key
+           ELSE IF ~InputUnchanged(ev) THEN "input model modified: " \o ev.key
+           ELSE "result depends on history: " \o ev.key \o " with=" \o ToString(results[KeyOf(ev)].sc)   \* the conflicting earlier scenario
 
 Next == /\ l <= Len(TraceLog) /\ l' = l + 1
         /\ LET ev == TraceLog[l] IN
@@ -42,9 +43,9 @@ Next == /\ l <= Len(TraceLog) /\ l' = l + 1
                       ELSE L' = (ev.id :> Empty) @@ L /\ Verdict("bad", l, ev.sc, "logger operation breaks coherence: " \o ToString(ev))
              [] ev.e = "svc" ->
                    /\ UNCHANGED L
-                   /\ results' = IF Mode = "C12" /\ KeyOf(ev) \notin DOMAIN results THEN (KeyOf(ev) :> ev.res) @@ results ELSE results
+                   /\ results' = IF Mode = "C12" /\ KeyOf(ev) \notin DOMAIN results THEN (KeyOf(ev) :> [res |-> ev.res, sc |-> ev.sc]) @@ results ELSE results
                    /\ IF SvcOk(ev)
-                      THEN IF Mode = "C12" /\ ParseKb(ev) /\ OtherKbKey(ev) \in DOMAIN results /\ results[OtherKbKey(ev)] # ev.res
+                      THEN IF Mode = "C12" /\ ParseKb(ev) /\ OtherKbKey(ev) \in DOMAIN results /\ results[OtherKbKey(ev)].res # ev.res
                            THEN Verdict("known", l, ev.sc, "KeepBlanksLeak") ELSE TRUE
                       ELSE Verdict("bad", l, ev.sc, Why(ev))
              [] ev.e = "rule" ->     \* enumeration sweep: every rule value has a retrievable heading / url and keeps its level
